@@ -147,6 +147,51 @@ func main() {
 		emit(map[string]interface{}{"site": "SlotTag", "k": ints([]byte(tag)), "slot": s})
 		ntag++
 	}
+	// the checkpoint key of a transactional link to one shard of a cluster: picked inside the shard's slot ranges - wide
+	// ranges (found at once), a handful of slots (found after some thousand candidates), single slots, and lists whose
+	// first range is the narrow one
+	nchosen := 0
+	chose := func(ranges [][2]int) {
+		key := syncer.VerifChoseKeyInSlots(config.CheckpointKey, ranges)
+		lo, hi := []int{}, []int{}
+		for _, rg := range ranges {
+			lo, hi = append(lo, rg[0]), append(hi, rg[1])
+		}
+		emit(map[string]interface{}{"site": "ChosenKey", "k": ints([]byte(key)), "lo": lo, "hi": hi})
+		nchosen++
+	}
+	for i := 0; i < 24; i++ {
+		a := r.Intn(16384)
+		switch i % 6 {
+		case 0:
+			chose([][2]int{{a, a}})
+		case 1:
+			w := 1 + r.Intn(12)
+			if a+w > 16383 {
+				a = 16383 - w
+			}
+			chose([][2]int{{a, a + w}})
+		case 2:
+			w := 1 + r.Intn(9)
+			if a+w > 16383 {
+				a = 16383 - w
+			}
+			b := r.Intn(10000)
+			chose([][2]int{{a, a + w}, {b, b + 5461}})
+		case 3:
+			b := r.Intn(16384)
+			chose([][2]int{{a, a}, {b, b}})
+		case 4:
+			b := r.Intn(10000)
+			chose([][2]int{{b, b + 1 + r.Intn(5461)}})
+		default:
+			w := 20 + r.Intn(60)
+			if a+w > 16383 {
+				a = 16383 - w
+			}
+			chose([][2]int{{a, a + w}})
+		}
+	}
 	// the same filter object is shared by the parallel snapshot workers and the command path: its answers must not depend on who
 	// else is asking.  Eight goroutines ask one filter about a small set of keys (each repeats its keys); every answer that
 	// differs from the one the filter gave when asked alone is recorded (TLC then says which of the two is wrong)
